@@ -112,6 +112,18 @@ def generate(ctx, thorough):
         # chains of re-issue: the token from the reply is presented again and again, on the same and on a new connection, with a
         # privileged request after each (e.g. hi, login nologin, prev, get me, conn, prev, get me; hi, login needscred, prev, prev)
         fams["chain"] = [p + [prev[0], prev[0]] for p in short] + [p + [prev[0]] + getme[:1] + [conn[0], prev[0]] + getme[:1] for p in short]
+    # F2c: store faults. Every login / account message of the alphabet after the handshake, with the n-th adapter call made while it is
+    # processed failing (n = 1..6, thorough 1..10), followed by a privileged request: a store failure may make the login fail, it must
+    # never authenticate a session the fault-free login would not (judged by the clauses; no prediction for these sequences)
+    his = [m for m in abc if m["k"] == "hi" and m.get("v") in ("A", "B")][:1]
+    getme2 = [m for m in abc if m["k"] == "get" and m.get("t") == "me" and m.get("o") == "none"][:1]
+    if his:
+        fl = []
+        for m in abc:
+            if m["k"] in ("login", "acc") and m.get("sec") != "prev":
+                for nth in range(1, (10 if thorough else 6) + 1):
+                    fl.append(his + [dict(m, fault=nth)] + getme2)
+        fams["fault"] = fl
     # F3 (thorough): random walks of 8 messages over the thorough alphabet
     r3 = None
     if thorough:
